@@ -91,6 +91,16 @@ def hash_probes():
                                             {"id": "ga", "limits": {"weeklymax": "20h"}, "children": [{"id": "bob"}, {"id": "kim"}]}],
                               "tasks": [T("p", 900, ["zed", "amy"]), T("q", 900, ["bob", "kim"]), T("r", 500, "amy"), T("s", 500, "kim"),
                                         {"id": "m", "milestone": True, "deps": ["p", "q", "r", "s"]}], "reports": [rep]}))
+    # everything named twice: alternatives listed twice, team members listed twice, the same predecessor twice, every list-like
+    # statement of the body written twice (a 'seen' set or a set-based de-duplication would order by hash)
+    out.append(render.render({"resources": [{"id": n} for n in names],
+                              "tasks": [T("hold", 600, "dev", prio=900), {"id": "b", "effort": 300, "alloc": ["dev"], "alt": names[1:] + names[1:][::-1]},
+                                        T("c", 200, "amy"), T("d", 200, "zed"), T("e", 200, "pat")], "reports": [rep]}))
+    out.append(render.render({"dup2": True, "resources": [{"id": n, "leaves": [{"k": "leaves", "type": "annual", "a": f"2025-01-{7 + k:02d}"}]} for k, n in enumerate(names)],
+                              "vacations": [("2025-01-10", None), ("2025-01-16", None)],
+                              "tasks": [T("hold", 600, "dev", prio=900), {"id": "b", "effort": 300, "alloc": ["dev", "uwe"], "alt": names[1:]},
+                                        T("team", 400, names[::-1]), T("c", 200, "amy", deps=["b", "hold", "b"]), T("d", 200, "zed"), T("e", 200, "pat")],
+                              "reports": [rep]}))
     return out
 
 
